@@ -20,6 +20,7 @@ func ShapeLEA()
 func ShapeCMPM()
 func ShapeMOVI()
 func ShapeCALL()
+func ShapeSkip()
 func shapeHelper()
 
 // Placeholders linked before (A) and after (Z) the shapes.
@@ -34,6 +35,7 @@ func PhA7()
 func PhA8()
 func PhA9()
 func PhA10()
+func PhA11()
 func PhZ0()
 func PhZ1()
 func PhZ2()
@@ -45,6 +47,7 @@ func PhZ7()
 func PhZ8()
 func PhZ9()
 func PhZ10()
+func PhZ11()
 
 // Tight placeholders (t_tight_amd64.s): K bytes of placeholder, an INT3, then a neighbour routine.
 func PhTight14()
@@ -89,10 +92,11 @@ var Shapes = []*Shape{
 	{Name: "ShapeCMPM", Run: ShapeCMPM, PhA: "PhA8", PhZ: "PhZ8", Note: "RIP-relative CMP with a trailing immediate, then JE rel8"},
 	{Name: "ShapeMOVI", Run: ShapeMOVI, PhA: "PhA9", PhZ: "PhZ9", Note: "store-immediate to RIP-relative memory in the prefix"},
 	{Name: "ShapeCALL", Run: ShapeCALL, PhA: "PhA10", PhZ: "PhZ10", Note: "CALL rel32 in the prefix"},
+	{Name: "ShapeSkip", Run: ShapeSkip, PhA: "PhA11", PhZ: "PhZ11", Note: "short forward branch inside the copied prefix that jumps over a rel8 branch leaving it (refusal expected: widening the second would break the first)"},
 }
 
 // keep every placeholder linked
-var phRefs = []func(){PhA0, PhA1, PhA2, PhA3, PhA4, PhA5, PhA6, PhA7, PhA8, PhA9, PhA10, PhZ0, PhZ1, PhZ2, PhZ3, PhZ4, PhZ5, PhZ6, PhZ7, PhZ8, PhZ9, PhZ10}
+var phRefs = []func(){PhA0, PhA1, PhA2, PhA3, PhA4, PhA5, PhA6, PhA7, PhA8, PhA9, PhA10, PhA11, PhZ0, PhZ1, PhZ2, PhZ3, PhZ4, PhZ5, PhZ6, PhZ7, PhZ8, PhZ9, PhZ10, PhZ11}
 
 // NumPh reports how many placeholders are linked.
 func NumPh() int { return len(phRefs) + len(tightRefs) }
